@@ -164,7 +164,7 @@ fn validate_vs_ref<const N: usize>(class: u16, ty: u16) -> (bool, usize) {
     (e, len)
 }
 
-// @harness props=C18 panics=C18,C01 tier=quick mem=3 t=900 fn="Rdata::validate,helpers::validate_name,Rdata::validate_as_in_a,Rdata::validate_as_ch_a,Rdata::validate_as_soa,Rdata::validate_as_in_wks,Rdata::validate_as_hinfo,Rdata::validate_as_minfo,Rdata::validate_as_mx,Rdata::validate_as_txt,Rdata::validate_as_in_aaaa,Rdata::validate_as_in_srv,Rdata::validate_as_opt,Rdata::validate_as_tsig,Name::validate_uncompressed,Name::validate_uncompressed_all"
+// @harness props=C18 panics=C18,C01 tier=quick mem=2 t=900 fn="Rdata::validate,helpers::validate_name,Rdata::validate_as_in_a,Rdata::validate_as_ch_a,Rdata::validate_as_soa,Rdata::validate_as_in_wks,Rdata::validate_as_hinfo,Rdata::validate_as_minfo,Rdata::validate_as_mx,Rdata::validate_as_txt,Rdata::validate_as_in_aaaa,Rdata::validate_as_in_srv,Rdata::validate_as_opt,Rdata::validate_as_tsig,Name::validate_uncompressed,Name::validate_uncompressed_all"
 //   bound="EVERY class (u16) and type (u16); RDATA of every length 0..=8, all octet values; unwind 10"
 //   sym="class:u16, type:u16, buf:[u8;8], len<=8"
 #[kani::proof]
@@ -184,7 +184,7 @@ fn c18_validate_all_types_len8() {
     kani::cover!(ok && !ref_supported(class, ty) && len == 3, "opaque RDATA of an unsupported class/type accepted");
 }
 
-// @harness props=C18 panics=C18,C01 tier=thorough mem=4 t=2400 fn="Rdata::validate and every validate_as_*"
+// @harness props=C18 panics=C18,C01 tier=thorough mem=3 t=1200 fn="Rdata::validate and every validate_as_*"
 //   bound="EVERY class (u16) and type (u16); RDATA of every length 0..=12, all octet values; unwind 14"
 //   sym="class:u16, type:u16, buf:[u8;12], len<=12"
 #[kani::proof]
@@ -452,7 +452,7 @@ fn c18_read_plain_n8() {
     }
 }
 
-// @harness props=C18 panics=C18,C01 tier=quick mem=2 t=900 fn="Rdata::read,helpers::prepare_to_read_rdata,Rdata::validate_as_in_aaaa,Rdata::validate_as_tsig,Name::validate_uncompressed"
+// @harness props=C18 panics=C18,C01 tier=quick mem=2 t=1200 fn="Rdata::read,helpers::prepare_to_read_rdata,Rdata::validate_as_in_aaaa,Rdata::validate_as_tsig,Name::validate_uncompressed"
 //   bound="IN AAAA and TSIG; message of exactly 18 octets, all octet values; cursor 0..=19; RDLENGTH any u16; unwind 20"
 //   sym="msg:[u8;18], cursor<=19, rdlength:u16 (fresh per type)"
 #[kani::proof]
@@ -469,7 +469,7 @@ fn c18_read_plain_n18() {
 
 // ---- name-bearing types, every octet symbolic, tiny messages ----------------
 
-// @harness props=C18 panics=C18,C01 tier=thorough mem=7 t=3600 fn="Rdata::read,helpers::read_name_rdata,helpers::prepare_to_read_rdata,Name::try_from_compressed,name::wire::parse_compressed_name,Rdata::validate"
+// @harness props=C18 panics=C18,C01 tier=thorough mem=7 t=2700 fn="Rdata::read,helpers::read_name_rdata,helpers::prepare_to_read_rdata,Name::try_from_compressed,name::wire::parse_compressed_name,Rdata::validate"
 //   bound="type NS, any class; message of exactly 3 octets, all octet values; cursor 0..=4; RDLENGTH any u16; unwind 5"
 //   sym="msg:[u8;3], cursor<=4, rdlength:u16, class:u16" stubs="S7"
 #[kani::proof]
@@ -544,7 +544,7 @@ fn skeleton(class: u16, ty: u16, pre: usize, v1: usize, v2: Option<usize>, post:
     check_read(&m[..n], SK_CURSOR, rdlength, class, ty)
 }
 
-// @harness props=C18 panics=C18,C01 tier=quick mem=4 t=2400 fn="Rdata::read,Rdata::read_mx,helpers::prepare_to_read_rdata,Name::try_from_compressed,name::wire::parse_compressed_name,Rdata::validate"
+// @harness props=C18 panics=C18,C01 tier=quick mem=3 t=1800 fn="Rdata::read,Rdata::read_mx,helpers::prepare_to_read_rdata,Name::try_from_compressed,name::wire::parse_compressed_name,Rdata::validate"
 //   bound="type MX, any class; ONE message skeleton: 3-octet name pool, then at cursor 3 the RDATA with name field = label + pointer to the pool; RDLENGTH exact; symbolic label contents, fixed fields, trailing octets; unwind 12"
 //   sym="label octets, fixed-field octets, class:u16" stubs="S7"
 #[kani::proof]
@@ -557,7 +557,7 @@ fn c18_read_mx_skeleton() {
     kani::cover!(s.accepted && s.expanded, "RDATA with a decompressed name accepted");
 }
 
-// @harness props=C18 panics=C18,C01 tier=thorough mem=4 t=2400 fn="Rdata::read,Rdata::read_in_srv,helpers::prepare_to_read_rdata,Name::try_from_compressed,name::wire::parse_compressed_name,Rdata::validate"
+// @harness props=C18 panics=C18,C01 tier=thorough mem=3 t=1800 fn="Rdata::read,Rdata::read_in_srv,helpers::prepare_to_read_rdata,Name::try_from_compressed,name::wire::parse_compressed_name,Rdata::validate"
 //   bound="type SRV class IN; ONE message skeleton: 3-octet name pool, then at cursor 3 the RDATA with name field = label + pointer to the pool; RDLENGTH exact; symbolic label contents, fixed fields, trailing octets; unwind 16"
 //   sym="label octets, fixed-field octets" stubs="S7"
 #[kani::proof]
@@ -569,7 +569,7 @@ fn c18_read_srv_skeleton() {
     kani::cover!(s.accepted && s.expanded, "RDATA with a decompressed name accepted");
 }
 
-// @harness props=C18 panics=C18,C01 tier=thorough mem=4 t=2400 fn="Rdata::read,Rdata::read_ch_a,helpers::prepare_to_read_rdata,Name::try_from_compressed,name::wire::parse_compressed_name,Rdata::validate"
+// @harness props=C18 panics=C18,C01 tier=thorough mem=3 t=1800 fn="Rdata::read,Rdata::read_ch_a,helpers::prepare_to_read_rdata,Name::try_from_compressed,name::wire::parse_compressed_name,Rdata::validate"
 //   bound="type A class CH; ONE message skeleton: 3-octet name pool, then at cursor 3 the RDATA with name field = label + pointer to the pool; RDLENGTH exact; symbolic label contents, fixed fields, trailing octets; unwind 12"
 //   sym="label octets, fixed-field octets" stubs="S7"
 #[kani::proof]
@@ -581,7 +581,7 @@ fn c18_read_ch_a_skeleton() {
     kani::cover!(s.accepted && s.expanded, "RDATA with a decompressed name accepted");
 }
 
-// @harness props=C18 panics=C18,C01 tier=thorough mem=4 t=2400 fn="Rdata::read,Rdata::read_minfo,helpers::prepare_to_read_rdata,Name::try_from_compressed,name::wire::parse_compressed_name,Rdata::validate"
+// @harness props=C18 panics=C18,C01 tier=thorough mem=4 t=1800 fn="Rdata::read,Rdata::read_minfo,helpers::prepare_to_read_rdata,Name::try_from_compressed,name::wire::parse_compressed_name,Rdata::validate"
 //   bound="type MINFO, any class; ONE message skeleton: 3-octet name pool, then at cursor 3 the RDATA with name field = label + pointer to the pool (second name: pointer to the pool); RDLENGTH exact; symbolic label contents, fixed fields, trailing octets; unwind 12"
 //   sym="label octets, fixed-field octets, class:u16" stubs="S7"
 #[kani::proof]
@@ -594,7 +594,7 @@ fn c18_read_minfo_skeleton() {
     kani::cover!(s.accepted && s.expanded, "RDATA with a decompressed name accepted");
 }
 
-// @harness props=C18 panics=C18,C01 tier=thorough mem=5 t=3000 fn="Rdata::read,Rdata::read_soa,helpers::prepare_to_read_rdata,Name::try_from_compressed,name::wire::parse_compressed_name,Rdata::validate"
+// @harness props=C18 panics=C18,C01 tier=thorough mem=4 t=2400 fn="Rdata::read,Rdata::read_soa,helpers::prepare_to_read_rdata,Name::try_from_compressed,name::wire::parse_compressed_name,Rdata::validate"
 //   bound="type SOA, any class; ONE message skeleton: 3-octet name pool, then at cursor 3 the RDATA with name field = label + pointer to the pool (second name: pointer to the pool); RDLENGTH exact; symbolic label contents, fixed fields, trailing octets; unwind 34"
 //   sym="label octets, fixed-field octets, class:u16" stubs="S7"
 #[kani::proof]
@@ -609,7 +609,7 @@ fn c18_read_soa_skeleton() {
 
 // RDLENGTH one short / one long for the MX skeleton: the name no longer ends
 // exactly at the end of the RDATA.
-// @harness props=C18 panics=C18,C01 tier=thorough mem=5 t=3000 fn="Rdata::read,Rdata::read_mx,Name::try_from_compressed,name::wire::parse_compressed_name"
+// @harness props=C18 panics=C18,C01 tier=thorough mem=2 t=900 fn="Rdata::read,Rdata::read_mx,Name::try_from_compressed,name::wire::parse_compressed_name"
 //   bound="type MX, any class; the MX skeleton with RDLENGTH one less and one more than the fields; unwind 12"
 //   sym="label octets, fixed-field octets, class:u16" stubs="S7"
 #[kani::proof]
@@ -630,7 +630,7 @@ fn c18_read_mx_skeleton_off_by_one() {
 // parser run over the whole symbolic message: no result in 25 minutes); the
 // fully symbolic harnesses cover the same case for NS, MX, CH A and MINFO
 // with symbolic cursor and RDLENGTH on 3-4 octet messages.
-// @harness props=C18 panics=C18,C01 tier=quick mem=3 t=1800 fn="Rdata::read,Rdata::read_in_srv,Rdata::read_soa,Rdata::read_mx,Rdata::read_minfo,Rdata::read_ch_a,helpers::read_name_rdata,Name::try_from_compressed"
+// @harness props=C18 panics=C18,C01 tier=quick mem=3 t=1200 fn="Rdata::read,Rdata::read_in_srv,Rdata::read_soa,Rdata::read_mx,Rdata::read_minfo,Rdata::read_ch_a,helpers::read_name_rdata,Name::try_from_compressed"
 //   bound="SRV RDLENGTH 6, MX 2, NS/CH A/MINFO/SOA 0, at cursor 1 of a 7-octet message (RDATA ends at the end of the message) and of an 8-octet one (one octet follows); all octet values; unwind 10"
 //   sym="msg:[u8;8]" stubs="S7"
 #[kani::proof]
@@ -654,66 +654,12 @@ fn c18_read_rdlength_ends_at_name() {
     kani::cover!(true, "reached");
 }
 
-// ---- name-bearing types, every octet symbolic (continued) -------------------
-
-// @harness props=C18 panics=C18,C01 tier=thorough mem=12 t=5400 fn="Rdata::read,helpers::read_name_rdata,Name::try_from_compressed,name::wire::parse_compressed_name"
-//   bound="type NS, any class; message of exactly 4 octets, all octet values; cursor 0..=5; RDLENGTH any u16; unwind 6"
-//   sym="msg:[u8;4], cursor<=5, rdlength:u16, class:u16" stubs="S7"
-#[kani::proof]
-#[kani::unwind(6)]
-#[kani::stub(arrayvec::ArrayVec::try_extend_from_slice, try_extend_model)]
-fn c18_read_ns_n4() {
-    let class: u16 = kani::any();
-    let s = read_sym_names::<4>(class, 2);
-    kani::cover!(s.accepted && s.expanded, "NS whose name was decompressed accepted");
-    kani::cover!(s.accepted && s.out_len == 4, "NS with a two-octet label accepted");
-    kani::cover!(!s.eom && !s.accepted, "NS inside the message rejected");
-}
-
-// @harness props=C18 panics=C18,C01 tier=thorough mem=12 t=5400 fn="Rdata::read,Rdata::read_mx,Name::try_from_compressed,name::wire::parse_compressed_name"
-//   bound="type MX, any class; message of exactly 4 octets, all octet values; cursor 0..=5; RDLENGTH any u16; unwind 6"
-//   sym="msg:[u8;4], cursor<=5, rdlength:u16, class:u16" stubs="S7"
-#[kani::proof]
-#[kani::unwind(6)]
-#[kani::stub(arrayvec::ArrayVec::try_extend_from_slice, try_extend_model)]
-fn c18_read_mx_n4() {
-    let class: u16 = kani::any();
-    let s = read_sym_names::<4>(class, 15);
-    kani::cover!(s.accepted && s.expanded, "MX whose name was decompressed (pointer into the preference field) accepted");
-    kani::cover!(s.accepted && s.out_len == 3, "MX with a root exchange accepted");
-    kani::cover!(!s.eom && !s.accepted, "MX inside the message rejected");
-}
-
-// @harness props=C18 panics=C18,C01 tier=thorough mem=12 t=5400 fn="Rdata::read,Rdata::read_ch_a,Name::try_from_compressed,name::wire::parse_compressed_name"
-//   bound="type A class CH; message of exactly 4 octets, all octet values; cursor 0..=5; RDLENGTH any u16; unwind 6"
-//   sym="msg:[u8;4], cursor<=5, rdlength:u16" stubs="S7"
-#[kani::proof]
-#[kani::unwind(6)]
-#[kani::stub(arrayvec::ArrayVec::try_extend_from_slice, try_extend_model)]
-fn c18_read_ch_a_n4() {
-    let s = read_sym_names::<4>(CH, 1);
-    kani::cover!(s.accepted && s.expanded, "CH A whose name was decompressed accepted");
-    kani::cover!(s.accepted && s.out_len == 3, "CH A with a root name accepted");
-    kani::cover!(!s.eom && !s.accepted, "CH A inside the message rejected");
-}
-
-// @harness props=C18 panics=C18,C01 tier=thorough mem=12 t=5400 fn="Rdata::read,Rdata::read_minfo,Name::try_from_compressed,name::wire::parse_compressed_name"
-//   bound="type MINFO, any class; message of exactly 4 octets, all octet values; cursor 0..=5; RDLENGTH any u16; unwind 6"
-//   sym="msg:[u8;4], cursor<=5, rdlength:u16, class:u16" stubs="S7"
-#[kani::proof]
-#[kani::unwind(6)]
-#[kani::stub(arrayvec::ArrayVec::try_extend_from_slice, try_extend_model)]
-fn c18_read_minfo_n4() {
-    let class: u16 = kani::any();
-    let s = read_sym_names::<4>(class, 14);
-    kani::cover!(s.accepted && s.expanded, "MINFO with a decompressed name accepted");
-    kani::cover!(s.accepted && s.out_len == 2, "MINFO with two root names accepted");
-    kani::cover!(!s.eom && !s.accepted, "MINFO inside the message rejected");
-}
-
 // ---- the other single-name types --------------------------------------------
+// (Fully symbolic 4-octet messages for NS, MX, CH A and MINFO were written
+// and dropped: no run finished inside the time available; by the guide's
+// numbers parse_compressed_name alone needs 9 GB there.)
 
-// @harness props=C18 panics=C18,C01 tier=thorough mem=7 t=3600 fn="Rdata::read,helpers::read_name_rdata,Name::try_from_compressed,name::wire::parse_compressed_name"
+// @harness props=C18 panics=C18,C01 tier=thorough mem=7 t=2700 fn="Rdata::read,helpers::read_name_rdata,Name::try_from_compressed,name::wire::parse_compressed_name"
 //   bound="type MD (3), any class; message of exactly 3 octets, all octet values; cursor 0..=4; RDLENGTH any u16; unwind 5"
 //   sym="msg:[u8;3], cursor<=4, rdlength:u16, class:u16" stubs="S7"
 #[kani::proof]
@@ -727,7 +673,7 @@ fn c18_read_md_n3() {
     kani::cover!(!s.eom && !s.accepted, "RDATA inside the message rejected");
 }
 
-// @harness props=C18 panics=C18,C01 tier=thorough mem=7 t=3600 fn="Rdata::read,helpers::read_name_rdata,Name::try_from_compressed,name::wire::parse_compressed_name"
+// @harness props=C18 panics=C18,C01 tier=thorough mem=7 t=2700 fn="Rdata::read,helpers::read_name_rdata,Name::try_from_compressed,name::wire::parse_compressed_name"
 //   bound="type MF (4), any class; message of exactly 3 octets, all octet values; cursor 0..=4; RDLENGTH any u16; unwind 5"
 //   sym="msg:[u8;3], cursor<=4, rdlength:u16, class:u16" stubs="S7"
 #[kani::proof]
@@ -741,7 +687,7 @@ fn c18_read_mf_n3() {
     kani::cover!(!s.eom && !s.accepted, "RDATA inside the message rejected");
 }
 
-// @harness props=C18 panics=C18,C01 tier=thorough mem=7 t=3600 fn="Rdata::read,helpers::read_name_rdata,Name::try_from_compressed,name::wire::parse_compressed_name"
+// @harness props=C18 panics=C18,C01 tier=thorough mem=7 t=2700 fn="Rdata::read,helpers::read_name_rdata,Name::try_from_compressed,name::wire::parse_compressed_name"
 //   bound="type CNAME (5), any class; message of exactly 3 octets, all octet values; cursor 0..=4; RDLENGTH any u16; unwind 5"
 //   sym="msg:[u8;3], cursor<=4, rdlength:u16, class:u16" stubs="S7"
 #[kani::proof]
@@ -755,7 +701,7 @@ fn c18_read_cname_n3() {
     kani::cover!(!s.eom && !s.accepted, "RDATA inside the message rejected");
 }
 
-// @harness props=C18 panics=C18,C01 tier=thorough mem=7 t=3600 fn="Rdata::read,helpers::read_name_rdata,Name::try_from_compressed,name::wire::parse_compressed_name"
+// @harness props=C18 panics=C18,C01 tier=thorough mem=7 t=2700 fn="Rdata::read,helpers::read_name_rdata,Name::try_from_compressed,name::wire::parse_compressed_name"
 //   bound="type MB (7), any class; message of exactly 3 octets, all octet values; cursor 0..=4; RDLENGTH any u16; unwind 5"
 //   sym="msg:[u8;3], cursor<=4, rdlength:u16, class:u16" stubs="S7"
 #[kani::proof]
@@ -769,7 +715,7 @@ fn c18_read_mb_n3() {
     kani::cover!(!s.eom && !s.accepted, "RDATA inside the message rejected");
 }
 
-// @harness props=C18 panics=C18,C01 tier=thorough mem=7 t=3600 fn="Rdata::read,helpers::read_name_rdata,Name::try_from_compressed,name::wire::parse_compressed_name"
+// @harness props=C18 panics=C18,C01 tier=thorough mem=7 t=2700 fn="Rdata::read,helpers::read_name_rdata,Name::try_from_compressed,name::wire::parse_compressed_name"
 //   bound="type MG (8), any class; message of exactly 3 octets, all octet values; cursor 0..=4; RDLENGTH any u16; unwind 5"
 //   sym="msg:[u8;3], cursor<=4, rdlength:u16, class:u16" stubs="S7"
 #[kani::proof]
@@ -783,7 +729,7 @@ fn c18_read_mg_n3() {
     kani::cover!(!s.eom && !s.accepted, "RDATA inside the message rejected");
 }
 
-// @harness props=C18 panics=C18,C01 tier=thorough mem=7 t=3600 fn="Rdata::read,helpers::read_name_rdata,Name::try_from_compressed,name::wire::parse_compressed_name"
+// @harness props=C18 panics=C18,C01 tier=thorough mem=7 t=2700 fn="Rdata::read,helpers::read_name_rdata,Name::try_from_compressed,name::wire::parse_compressed_name"
 //   bound="type MR (9), any class; message of exactly 3 octets, all octet values; cursor 0..=4; RDLENGTH any u16; unwind 5"
 //   sym="msg:[u8;3], cursor<=4, rdlength:u16, class:u16" stubs="S7"
 #[kani::proof]
@@ -797,7 +743,7 @@ fn c18_read_mr_n3() {
     kani::cover!(!s.eom && !s.accepted, "RDATA inside the message rejected");
 }
 
-// @harness props=C18 panics=C18,C01 tier=thorough mem=7 t=3600 fn="Rdata::read,helpers::read_name_rdata,Name::try_from_compressed,name::wire::parse_compressed_name"
+// @harness props=C18 panics=C18,C01 tier=thorough mem=7 t=2700 fn="Rdata::read,helpers::read_name_rdata,Name::try_from_compressed,name::wire::parse_compressed_name"
 //   bound="type PTR (12), any class; message of exactly 3 octets, all octet values; cursor 0..=4; RDLENGTH any u16; unwind 5"
 //   sym="msg:[u8;3], cursor<=4, rdlength:u16, class:u16" stubs="S7"
 #[kani::proof]
@@ -822,7 +768,7 @@ fn rejecting_reader(_message: &[u8], _cursor: usize, _rdlength: u16) -> Result<B
     Err(ReadRdataError::Other)
 }
 
-// @harness props=C18 panics=C18,C01 tier=thorough mem=7 t=2400 fn="Rdata::read (dispatch),helpers::prepare_to_read_rdata"
+// @harness props=C18 panics=C18,C01 tier=thorough mem=7 t=1800 fn="Rdata::read (dispatch),helpers::prepare_to_read_rdata"
 //   bound="EVERY class (u16) and type (u16) without a reference layout (NULL, A/WKS/AAAA/SRV outside their class, unknown types); message of exactly 5 octets, all octet values; cursor 0..=6; RDLENGTH any u16; unwind 7"
 //   sym="class:u16, type:u16, msg:[u8;5], cursor<=6, rdlength:u16" stubs="read_name_rdata/read_ch_a/read_soa/read_minfo/read_mx/read_in_srv -> reject (arms unreachable for these types)"
 #[kani::proof]
